@@ -184,6 +184,10 @@ fn build_pair(r: &mut Rng, out: &mut String, force_relation: bool) -> &'static s
     writeln!(out, "new b0").unwrap();
     writeln!(out, "new b1").unwrap();
     let mode = if r.chance(1, 14) {
+        202 // array chunk against an array chunk that holds all of its values but (at most) one
+    } else if r.chance(1, 16) {
+        97 // a completely full chunk on one side or on both
+    } else if r.chance(1, 14) {
         95 // complements
     } else if r.chance(1, 14) {
         201 // array chunk against a bitset chunk that misses exactly one of its values
@@ -373,6 +377,52 @@ fn build_pair(r: &mut Rng, out: &mut String, force_relation: bool) -> &'static s
             writeln!(out, "insert_range b1 in:{} in:{}", bs + cut + gap - extra.min(cut + gap), bs + 65535).unwrap();
             "b1"
         }
+        // a completely FULL chunk (all 65536 values; cached cardinality at its maximum, every word all-ones) against: another
+        // full chunk, a full chunk missing one value, a nearly full bitset (>= 61440 values, so that the xor / difference
+        // with the full chunk has <= 4096 values), a small bitset, an array, and nothing — in either order
+        97 => {
+            let k = *r.pick(&KEYS);
+            let bs = base(k);
+            let (l, rr) = if r.chance(1, 2) { ("b0", "b1") } else { ("b1", "b0") };
+            writeln!(out, "insert_range {} in:{} in:{}", l, bs, bs + 65535).unwrap();
+            match r.below(7) {
+                0 | 1 => writeln!(out, "insert_range {} in:{} in:{}", rr, bs, bs + 65535).unwrap(),
+                2 => {
+                    writeln!(out, "insert_range {} in:{} in:{}", rr, bs, bs + 65535).unwrap();
+                    writeln!(out, "remove {} {}", rr, bs + *r.pick(&[0u64, 63, 64, 4096, 65535])).unwrap();
+                }
+                3 => {
+                    // misses t values, t around the array limit
+                    let t = *r.pick(&[1u64, 100, 4095, 4096, 4097]);
+                    let s = *r.pick(&[0u64, 1, 64, 30000, 65536 - t]);
+                    if s > 0 {
+                        writeln!(out, "insert_range {} in:{} ex:{}", rr, bs, bs + s).unwrap();
+                    }
+                    if s + t < 65536 {
+                        writeln!(out, "insert_range {} in:{} in:{}", rr, bs + s + t, bs + 65535).unwrap();
+                    }
+                }
+                4 => {
+                    let n = r.range(4097, 6000);
+                    let s = r.below(65536 - n);
+                    writeln!(out, "insert_range {} in:{} ex:{}", rr, bs + s, bs + s + n).unwrap();
+                }
+                5 => {
+                    for _ in 0..r.range(1, 6) {
+                        writeln!(out, "insert {} {}", rr, bs + *r.pick(&[0u64, 1, 63, 64, 4095, 4096, 65534, 65535])).unwrap();
+                    }
+                }
+                _ => {}
+            }
+            // sometimes other chunks around it, on either side
+            if r.chance(1, 2) {
+                let k2 = *r.pick(&KEYS);
+                if k2 != k {
+                    writeln!(out, "insert {} {}", *r.pick(&["b0", "b1"]), base(k2) + 5).unwrap();
+                }
+            }
+            "b1"
+        }
         // many chunks on one side (33..70 tiny ones), a few on the other: chunk counts that differ by more than 16x,
         // right-hand chunks identical to / overlapping / absent from the left, adjacent in the left's chunk list, at
         // its first and last positions (paths chosen by the relative number of chunks; cursors that resume a search)
@@ -452,6 +502,52 @@ fn build_pair(r: &mut Rng, out: &mut String, force_relation: bool) -> &'static s
                 3 => writeln!(out, "remove b1 {}", vals[vals.len() / 2]).unwrap(),
                 _ => {}
             }
+            "b1"
+        }
+        // near-subset inside one representation: b1 = an array chunk with values from the boundary pool (often 0 and/or 65535,
+        // the extreme values of a chunk); b0 = a selection of b1's values plus at most ONE value that b1 lacks — below all of
+        // b1, above all of it (the chunk's last value 65535 included), or in between — and never longer than b1, so that no
+        // cardinality shortcut decides the relation
+        202 => {
+            let k = *r.pick(&KEYS);
+            let bs = base(k);
+            let n = *r.pick(&[1u64, 2, 3, 8, 40, 300]);
+            let mut right: Vec<u64> = Vec::new();
+            for _ in 0..n {
+                right.push(match r.below(4) {
+                    0 => *r.pick(&[0u64, 1, 2, 63, 64, 65, 4095, 4096, 65534]),
+                    _ => r.below(65535),
+                });
+            }
+            if r.chance(1, 4) {
+                right.push(65535);
+            }
+            right.sort_unstable();
+            right.dedup();
+            let mut left: Vec<u64> = right.iter().copied().filter(|_| r.chance(2, 3)).collect();
+            if left.len() == right.len() && left.len() > 1 {
+                left.remove(r.below(left.len() as u64) as usize);
+            }
+            let extra = match r.below(6) {
+                0 | 1 => Some(65535u64),
+                2 => Some(0),
+                3 => Some(right[right.len() / 2] + 1),
+                4 => Some(right[right.len() - 1].saturating_add(1).min(65535)),
+                _ => None,
+            };
+            if let Some(e) = extra {
+                if !right.contains(&e) {
+                    left.push(e);
+                }
+            }
+            left.sort_unstable();
+            left.dedup();
+            let show = |v: &[u64]| v.iter().map(|x| (bs + x).to_string()).collect::<Vec<_>>().join(" ");
+            let (l, rr) = if r.chance(3, 4) { ("b0", "b1") } else { ("b1", "b0") };
+            if !left.is_empty() {
+                writeln!(out, "from_iter {} {}", l, show(&left)).unwrap();
+            }
+            writeln!(out, "from_iter {} {}", rr, show(&right)).unwrap();
             "b1"
         }
         // one side empty (or both)
